@@ -57,3 +57,8 @@ CLAIMED.update({
    text="Decides one necessary clause: all NFA edge labels of a build live in one alphabet (literals vs classes). Equivalence of the overlap computation with the runtime matcher is NOT decided.",
    note="trusted: rustc MIR/types; regex-syntax yields Class::Unicode in Unicode mode"),
 })
+CLAIMED.update({
+ "C15": dict(level="other", design="§2 C15", technique="static analysis: symbolic (term-level, path-condition-carrying) evaluation of the MIR of cond_comp::cfg_active / test_feat_attr and of every retain/filter closure applying it",
+   text="Decides the evaluator and the removal sites: per path condition (attribute id == \"not\"/\"all\"/\"any\"/\"feature\") the returned term must be the Rust cfg operator; several cfg attributes are conjoined; the predicate is applied un-negated to nonterminals, alternatives and conversions (remove_disabled_decls + lower). Behavioural equality with the pruned grammar is NOT decided.",
+   note="trusted: rustc MIR; term evaluator (rules/symex.py)"),
+})
